@@ -24,6 +24,8 @@ def run(ctx):
     T.r113_model_registration(ctx)
     ctx.rule('R11.4', 'the warm-up reset precedes normal-priority model events of the same instant (scheduled with a priority above NORMAL_PRIORITY)')
     S.warmup_priority(ctx, sc, 'R11.4')
+    ctx.rule('R11.8', 'exactly one warm-up event per initialize, scheduled after the base initialisation reset the clock, at the replication\'s absolute warm-up time; warmup() fires WARMUP_EVENT at the clock')
+    S.warmup_schedule(ctx, sc, 'R11.8')
     T.r115_published_values(ctx)
     S.r116_end_after_clock(ctx, sc)
     T.reset_completeness(ctx, 'R11.7', ['SimCounter', 'SimTally', 'SimWeightedTally', 'SimPersistent'])
